@@ -49,6 +49,68 @@ SETF = M.Obj("dataclass", "SetF", (M.Fld("tags", M.Coll("set", STR), cons=cons(m
 WORM = M.Obj("dataclass", "Worm", (M.Fld("type", M.Lit(("worm",))), M.Fld("length", INT, has_default=True, default=1)))
 
 
+# ---------------------------------------------------------------------------
+# stacks of schemas: 3 and 4 levels on one position, constraint-carrying levels separated by
+# annotation-only ones, the levels being nested Annotated, a NewType-level schema, a field-level
+# schema (and the per-call schema= of the "schema" option set adds one more on top)
+
+NOTES = (cons(description="d"), cons(title="t", deprecated=True), cons(examples=(1,)), cons(description="d2", title="t2"))
+FAMILIES = {
+    # base type, constraint levels (>= 3, mergeable in any order), boundary data
+    "int": (INT, (cons(min=0), cons(max=10), cons(min=2, exc_max=9), cons(mult_of=2)), (-1, 0, 1, 2, 3, 8, 9, 10, 11, 12, "a", None)),
+    "float": (FLOAT, (cons(exc_min=0), cons(max=2.5), cons(min=0.5)), (0, 0.25, 0.5, 1, 2.5, 2.75, 3, "a")),
+    "str": (STR, (cons(min_len=1), cons(max_len=3), cons(pattern="^a"), cons(min_len=2, max_len=4)), ("", "a", "ab", "abc", "abcd", "abcde", "b", "bcd", 1)),
+    "list": (M.Coll("list", INT), (cons(min_items=1), cons(max_items=2), cons(unique=True), cons(min_items=2, max_items=3)), ([], [1], [1, 2], [1, 1], [1, 2, 3], [1, 2, 3, 4], [1, 1, 1], ["a"], 1)),
+    "dict": (M.Mapp(STR, INT), (cons(min_props=1), cons(max_props=2), cons(min_props=2, max_props=3)), ({}, {"a": 1}, {"a": 1, "b": 2}, {"a": 1, "b": 2, "c": 3}, {"a": 1, "b": 2, "c": 3, "d": 4}, {"a": "x"}, [])),
+}
+STACK_DATA: Dict[Any, List[Any]] = {}
+
+
+def stack_descriptions(tier: str) -> List[Any]:
+    import itertools
+
+    out: List[Any] = []
+    n = [0]
+
+    def ann(base, levels):
+        t = base
+        for c in levels:
+            t = M.Ann(t, c)
+        return t
+
+    for fam, (base, cs, data) in FAMILIES.items():
+        a, b = cs[0], cs[1]
+        orders3 = list(itertools.permutations((a, NOTES[0], b)))  # the annotation-only level at the bottom / middle / top
+        orders3 += [(a, b, c) for c in cs[2:]] + [(cs[-1], NOTES[1], a), (b, NOTES[2] if fam in ("int",) else NOTES[3], cs[2])]
+        orders4 = [(a, NOTES[0], b, NOTES[1]), (NOTES[0], a, NOTES[3], b), (a, b, NOTES[0], cs[2]), (b, NOTES[1], NOTES[0], a), (cs[2], a, NOTES[3], b)]
+        if tier == "thorough":
+            orders4 += list(itertools.permutations((a, NOTES[0], b, cs[2])))[:12]
+        for k, levels in enumerate(orders3 + orders4):
+            n[0] += 1
+            variants = []
+            # (1) nested Annotated only
+            variants.append((ann(base, levels), lambda x: x))
+            # (2) the innermost level registered on a NewType, the others Annotated around it
+            nt = M.NewT(f"Stk{n[0]}N", base, levels[0])
+            variants.append((ann(nt, levels[1:]), lambda x: x))
+            # (3) the outermost level as the schema of a field, below a NewType + Annotated
+            if k % 2 == 0 or tier == "thorough":
+                nt2 = M.NewT(f"Stk{n[0]}F", base, levels[0])
+                obj = M.Obj("dataclass", f"Stk{n[0]}O", (M.Fld("v", ann(nt2, levels[1:-1]), cons=levels[-1]), M.Fld("w", ann(base, levels), has_default=True, default=None)))
+                variants.append((obj, lambda x: {"v": x}))
+                variants.append((obj, lambda x, d=data: {"v": d[3], "w": x}))
+            # (4) below a container: the stack describes the items / values
+            if k % 3 == 0 or tier == "thorough":
+                variants.append((M.Coll("list", ann(base, levels)), lambda x: [x]))
+                variants.append((M.Mapp(STR, M.Opt(ann(base, levels))), lambda x: {"k": x}))
+            for td, wrap in variants:
+                if td not in STACK_DATA:
+                    STACK_DATA[td] = []
+                    out.append(td)
+                STACK_DATA[td] += [wrap(x) for x in data]
+    return out
+
+
 def extra_descriptions(tier: str) -> List[Any]:
     out: List[Any] = [
         R1,
@@ -549,6 +611,11 @@ def option_sets(tier: str) -> Dict[str, dict]:
     return {k: v for k, v in sets.items() if tier == "thorough" or not v.get("thorough")}
 
 
+def _aliased(data: List[Any], aliaser) -> List[Any]:
+    """the stack data of object wrappers use the field names v / w: unchanged by the camel aliaser"""
+    return [copy.deepcopy(d) for d in data]
+
+
 def run(report, tier: str, seed: int, log_name: str = "deserialize_vs_schema"):
     from apischema import ValidationError
     from apischema.deserialization import deserialization_method
@@ -556,11 +623,12 @@ def run(report, tier: str, seed: int, log_name: str = "deserialize_vs_schema"):
     from jsonschema import Draft202012Validator
 
     rng = random.Random(seed)
-    pool: List[Any] = P.type_pool(tier) + extra_descriptions(tier) + natives(tier)
+    stacks = stack_descriptions(tier)
+    pool: List[Any] = P.type_pool(tier) + extra_descriptions(tier) + stacks + natives(tier)
     osets = option_sets(tier)
     log = report.driver(
         log_name,
-        bound=f"{len(pool)} types (pools.type_pool: grammar depth <= {'2' if tier == 'quick' else '3'}; + {len(extra_descriptions(tier))} descriptions for nested constraints / literals in unions / keyword-named fields / readOnly, none_as_undefined; + {len(natives(tier))} real types: standard types with format, registered / dynamic / default / field conversions to standard types, generics, inherited discriminator) x option sets {list(osets)} x per-type datum pools (valid samples, <= {30 if tier == 'quick' else 80} boundary mutants each, {len(P.ATOMS)} atoms, {6 if tier == 'quick' else 40} seeded random values), restricted to the common semantic domain",
+        bound=f"{len(pool)} types (pools.type_pool: grammar depth <= {'2' if tier == 'quick' else '3'}; + {len(extra_descriptions(tier))} descriptions for nested constraints / literals in unions / keyword-named fields / readOnly, none_as_undefined; + {len(stacks)} schema stacks (3 / 4 levels over Annotated / NewType / field schema / per-call schema, constraint levels separated by annotation-only levels, for int / float / str / list / dict, also below containers); + {len(natives(tier))} real types: standard types with format, registered / dynamic / default / field conversions to standard types, generics, inherited discriminator) x option sets {list(osets)} x per-type datum pools (valid samples, <= {30 if tier == 'quick' else 80} boundary mutants each, {len(P.ATOMS)} atoms, {6 if tier == 'quick' else 40} seeded random values), restricted to the common semantic domain",
     )
     log.rule("case = (type, option set, datum) with the datum in the common semantic domain (no integer-valued float; at set positions uniqueItems is removed from the schema -- or, when the type also writes a `unique` constraint, arrays with duplicates are left out --, items-count constraints are compared on arrays with duplicates across the bound; only well-formed strings for format types); deserialize(T, d, **opts) accepts  <=>  Draft202012Validator(deserialization_schema(T, **opts)).is_valid(d); distinct by the triple; non-trivial when the datum is a list / dict or the type is not a bare primitive")
     realm = C.make_realm("c06")
@@ -606,7 +674,7 @@ def run(report, tier: str, seed: int, log_name: str = "deserialize_vs_schema"):
                     continue
                 involved = None
                 diverged = False
-                for d in C.data_pool(td, tier, rng, dups=set_pos, aliaser=common.get("aliaser")):
+                for d in C.data_pool(td, tier, rng, dups=set_pos, aliaser=common.get("aliaser")) + (_aliased(STACK_DATA.get(td, []), common.get("aliaser")) if not isinstance(td, Native) else []):
                     if diverged:
                         break
                     if C.has_intfloat(d):
